@@ -10,7 +10,7 @@ EXPLANATION = (
     "temporary object/sound vectors are pushed in pairs; taiko's Random mod touches sounds only and no lengths (R2); in "
     "taiko::convert, mania::convert, apply_hold_off_to_beatmap and apply_invert_to_beatmap every path from a write of "
     "hit_objects to the return passes a sort by start_time (total_cmp) (R3); effect points are inserted only through "
-    "ControlPoint::add (R4, shared with C06-R4). Column bounds, non-negative durations, key-count range: NOT decided.")
+    "ControlPoint::add (R4, shared with C06-R4); the range helpers of the conversion RNG (Random::next_int_range / next_double_range, private helpers inlined) are the polynomial min + U*(max - min) of one unit draw, casts and truncation read as identity — the necessary shape for a draw to stay inside [min, max), which the mania column picker relies on (R5). Column bounds, non-negative durations, key-count range: NOT decided.")
 
 BM = 'model::beatmap::Beatmap'
 PASS_THROUGH = {'deref_mut', 'as_mut_slice', 'as_mut', 'borrow_mut', 'index_mut', 'get_mut'}
@@ -292,4 +292,103 @@ def run(ctx):
     # ---- R4
     import ctlpoints
     ctlpoints.check(ctx, F, 'C19-R4', only=('effect_points',))
+    r5_range_draws(ctx, F)
     ctx.not_decided('mania column < key count, key count in [4,7] or the key mod, non-negative durations (value reasoning)')
+
+
+# ---- R5: the range draws of the conversion RNG are min + U * (max - min)
+def _poly_add(a, b, sign=1):
+    out = dict(a)
+    for m, c in b.items():
+        out[m] = out.get(m, 0) + sign * c
+        if out[m] == 0:
+            del out[m]
+    return out
+
+
+def _poly_mul(a, b):
+    out = {}
+    for m1, c1 in a.items():
+        for m2, c2 in b.items():
+            m = tuple(sorted(m1 + m2))
+            out[m] = out.get(m, 0) + c1 * c2
+            if out[m] == 0:
+                del out[m]
+    return out
+
+
+def range_poly(v, syms, draws, depth=0):
+    """polynomial (dict monomial -> coefficient) of a value tree over the parameter symbols and the unit draws; casts, From conversions and the
+    integer truncation are read as the identity.  None when the tree has another shape."""
+    if depth > 40:
+        return None
+    v = prov.strip(v, names={'from', 'into'})
+    k = v[0]
+    if k == 'param':
+        return {(syms[v[1]],): 1} if v[1] in syms else None
+    if k == 'const':
+        try:
+            c = float(v[1].get('val'))
+        except (TypeError, ValueError):
+            return None
+        return {(): c} if c != 0 else {}
+    if k == 'cast':
+        return range_poly(v[2], syms, draws, depth + 1)
+    if k == 'field' and v[2] in ('0',) and v[1][0] == 'binop' and v[1][1].endswith('WithOverflow'):
+        return range_poly(('binop', v[1][1][:-len('WithOverflow')], v[1][2], v[1][3]), syms, draws, depth + 1)
+    if k == 'binop':
+        a = range_poly(v[2], syms, draws, depth + 1)
+        b = range_poly(v[3], syms, draws, depth + 1)
+        if a is None or b is None:
+            return None
+        op = v[1].replace('Unchecked', '')
+        if op == 'Add':
+            return _poly_add(a, b)
+        if op == 'Sub':
+            return _poly_add(a, b, -1)
+        if op == 'Mul':
+            return _poly_mul(a, b)
+        return None
+    if k == 'call':
+        nm = v[1].get('name')
+        if nm in ('next_double',) and (v[1].get('impl_adt') or '').endswith('Random'):
+            key = id(v)
+            if key not in draws:
+                draws[key] = 'U%d' % (len(draws) + 1)
+            return {(draws[key],): 1}
+        return None
+    return None
+
+
+def r5_range_draws(ctx, F):
+    R = 'util::random::osu::Random'
+    n = 0
+    for name in ('next_int_range', 'next_double_range'):
+        f = F.method(R, name, inherent_only=True)
+        if f is None:
+            # not an error by itself: a range helper that does not exist cannot be wrong; the floor below watches the total
+            continue
+        n += 1
+        ctx.saw(f)
+        rv = prov.prov_of(f).return_value()
+        rv = prov.inline_all(F, rv, depth=2, _seen=(f.path,), only=lambda f_: (f_.get('impl_adt') or '') == R and f_.get('name') not in ('next_double', 'next_int', 'gen_unsigned'))
+        draws = {}
+        alts = rv[1] if rv[0] == 'phi' else [rv]
+        polys = [range_poly(a, {2: 'min', 3: 'max'}, draws) for a in alts]
+        want_ok = []
+        for p in polys:
+            if p is None:
+                want_ok.append(False)
+                continue
+            us = sorted({s for m in p for s in m if s.startswith('U')})
+            good = len(us) == 1 and p == {('min',): 1, tuple(sorted((us[0], 'max'))): 1, tuple(sorted((us[0], 'min'))): -1}
+            want_ok.append(good)
+
+        def show(p):
+            if p is None:
+                return 'not an affine expression of one unit draw'
+            return ' + '.join('%s%s' % ('' if c == 1 else ('-' if c == -1 else '%g*' % c), '*'.join(m) or '1') for m, c in sorted(p.items())) or '0'
+        ctx.require(all(want_ok) and bool(polys), 'C19-R5', 'range:' + name, 'Random::%s(min, max) = min + U*(max - min) with one unit draw U in [0, 1) (truncation aside): stays inside [min, max)' % name, f.where(),
+                    bad='Random::%s(min, max) computes %s instead of min + U*max - U*min: for min > 0 the draw leaves [min, max) — e.g. an 8K mania convert (lower column bound 1) '
+                        'is handed column indices >= the key count' % (name, ' | '.join(show(p) for p in polys)))
+    ctx.floor('C19-R5', n, 1, 'range helpers of the conversion RNG')
